@@ -9,7 +9,7 @@ import math
 import struct
 
 from ..facts import AnchorLost, Place
-from .values import (BV, XorSet, Agg, RefV, Cell, Opaque, StrV, UNIT, TOP, bv_bool, bv_const)
+from .values import (BV, XorSet, Agg, RefV, Cell, Opaque, StrV, UNIT, TOP, bv_bool, bv_const, SparseFields)
 
 
 class Unsupported(AnchorLost):
@@ -106,6 +106,8 @@ class Interp:
             return type(v)(rows, v.ncols)
         if not isinstance(v, Agg):
             raise Unsupported('store through non-aggregate %r' % (v,))
+        if isinstance(v.fields, SparseFields):
+            return Agg(v.kind, v.variant, v.fields.with_item(path[0], self._set(v.fields[path[0]], path[1:], val)))
         f = list(v.fields)
         while len(f) <= path[0]:
             f.append(None)
@@ -120,6 +122,8 @@ class Interp:
                 v = self.load(ref)
                 if isinstance(v, Agg) and v.kind == 'box':
                     v = v.fields[0]
+                    if isinstance(v, Agg) and v.kind == 'unique':
+                        v = v.fields[0]
                 if not isinstance(v, RefV):
                     raise Unsupported('deref of non-reference %r' % (v,))
                 ref = v
@@ -183,7 +187,7 @@ class Interp:
             # C-like enum constant / newtype scalar
             return self.scalar_of_ty(ty, v, int(j.get('size', 1)))
         if 'str' in j:
-            return RefV(Cell(Opaque(('str', j['str'])), 'strlit'))
+            return RefV(Cell(StrV(list(j['str'])), 'strlit'))
         if 'def' in j:
             if 'promoted' in j:
                 pb = self.facts.bodies.get('%s::{promoted#%d}' % (j['def'], j['promoted']))
@@ -829,6 +833,19 @@ def m_not(I, a, t, c):
     return deref_all(I, a[0]).bnot()
 
 
+def _enum_scalar_eq(I, x, y):
+    """field-less foreign enum value (modelled as Agg with a variant index) against its scalar constant"""
+    if isinstance(x, Agg) and not x.fields and isinstance(y, BV) and y.val is not None:
+        return x.variant == y.val
+    if isinstance(y, Agg) and not y.fields and isinstance(x, BV) and x.val is not None:
+        return y.variant == x.val
+    if isinstance(x, Agg) and isinstance(y, Agg) and not x.fields and not y.fields and x.kind != y.kind:
+        a, b = x.kind[4:], y.kind[4:]              # the same foreign enum reached through a re-export path
+        if a.endswith(b) or b.endswith(a):
+            return x.variant == y.variant
+    return None
+
+
 # derived PartialEq::ne on crate enums: default method = !eq
 @fallback('ne')
 def f_ne(I, a, t, c):
@@ -836,6 +853,9 @@ def f_ne(I, a, t, c):
         x, y = deref_all(I, a[0]), deref_all(I, a[1])
         if isinstance(x, StrV) and isinstance(y, StrV):
             return bv_bool(list(x.chars) != list(y.chars))
+        r = _enum_scalar_eq(I, x, y)
+        if r is not None:
+            return bv_bool(not r)
         if isinstance(x, Agg) and isinstance(y, Agg):
             return bv_bool(not (x == y))
         if isinstance(x, BV) and isinstance(y, BV):
@@ -849,6 +869,9 @@ def f_eq(I, a, t, c):
         x, y = deref_all(I, a[0]), deref_all(I, a[1])
         if isinstance(x, StrV) and isinstance(y, StrV):
             return bv_bool(list(x.chars) == list(y.chars))
+        r = _enum_scalar_eq(I, x, y)
+        if r is not None:
+            return bv_bool(r)
         if isinstance(x, Agg) and isinstance(y, Agg):
             return bv_bool(x == y)
         if isinstance(x, BV) and isinstance(y, BV):
@@ -938,6 +961,20 @@ def m_slice_index(I, a, t, c):
     r = a[1]
     if isinstance(r, Agg) and r.kind == 'adt:std::ops::Range':
         lo, hi = I.conc(r.fields[0]), I.conc(r.fields[1])
+        if lo > hi or hi > n:
+            raise Panic('SliceIndex', '%d..%d of %d' % (lo, hi, n), repr(t.span))
+        return RefV(cell, path, (s + lo, hi - lo))
+    if isinstance(r, Agg) and r.kind in ('adt:std::ops::RangeTo', 'adt:std::ops::RangeFrom', 'adt:std::ops::RangeFull', 'adt:std::ops::RangeInclusive', 'adt:std::ops::RangeToInclusive'):
+        if r.kind.endswith('RangeTo'):
+            lo, hi = 0, I.conc(r.fields[0])
+        elif r.kind.endswith('RangeFrom'):
+            lo, hi = I.conc(r.fields[0]), n
+        elif r.kind.endswith('RangeFull'):
+            lo, hi = 0, n
+        elif r.kind.endswith('RangeToInclusive'):
+            lo, hi = 0, I.conc(r.fields[0]) + 1
+        else:
+            lo, hi = I.conc(r.fields[0]), I.conc(r.fields[1]) + 1
         if lo > hi or hi > n:
             raise Panic('SliceIndex', '%d..%d of %d' % (lo, hi, n), repr(t.span))
         return RefV(cell, path, (s + lo, hi - lo))
@@ -1166,6 +1203,9 @@ def m_vec_index(I, a, t, c):
 def m_vec_resize(I, a, t, c):
     v = I.load(a[0])
     n = I.conc(a[1])
+    if n > 200000 and len(v.fields) == 0:
+        I.store(a[0], Agg('array', 0, SparseFields(n, a[2])))
+        return UNIT
     f = list(v.fields)[:n] + [a[2]] * max(0, n - len(v.fields))
     I.store(a[0], Agg('array', 0, f))
     return UNIT
@@ -2200,7 +2240,8 @@ def m_slice_make_case(I, a, t, c):
     return UNIT
 
 
-@model('core::slice::ascii::<impl [u8]>::to_ascii_uppercase', 'core::slice::ascii::<impl [u8]>::to_ascii_lowercase')
+@model('core::slice::ascii::<impl [u8]>::to_ascii_uppercase', 'core::slice::ascii::<impl [u8]>::to_ascii_lowercase',
+       'std::slice::<impl [u8]>::to_ascii_uppercase', 'std::slice::<impl [u8]>::to_ascii_lowercase')
 def m_slice_to_case(I, a, t, c):
     fn = _upper if c.name.endswith('uppercase') else _lower
     return Agg('array', 0, [fn(I, x) for x in _vals(I, a[0])])
@@ -2209,3 +2250,411 @@ def m_slice_to_case(I, a, t, c):
 @model('std::slice::<impl [T]>::to_vec', 'core::slice::<impl [T]>::to_vec', 'alloc::slice::<impl [T]>::to_vec')
 def m_slice_to_vec(I, a, t, c):
     return Agg('array', 0, list(_vals(I, a[0])))
+
+
+# ====================================================================== rayon, modelled sequentially in index order
+# (the analysed closures capture no shared mutable state - C11.capture - so a sequential schedule is one valid schedule;
+#  what these models let a rule decide is WHICH element each closure instance receives, for every chunking scheme)
+@model('rayon::ThreadPoolBuilder::new')
+def m_rayon_tpb_new(I, a, t, c):
+    return Opaque('ThreadPoolBuilder')
+
+
+@model('rayon::ThreadPoolBuilder::num_threads')
+def m_rayon_tpb_threads(I, a, t, c):
+    return Opaque('ThreadPoolBuilder')
+
+
+@model('rayon::ThreadPoolBuilder::build_global')
+def m_rayon_build_global(I, a, t, c):
+    I.trace.append(('build_global', None))
+    return _ok(UNIT)
+
+
+@model('<I as rayon::iter::IntoParallelRefMutIterator>::par_iter_mut', 'rayon::iter::IntoParallelRefMutIterator::par_iter_mut',
+       '<I as rayon::iter::IntoParallelRefIterator>::par_iter', 'rayon::iter::IntoParallelRefIterator::par_iter')
+def m_par_iter_mut(I, a, t, c):
+    v = a[0]
+    if isinstance(v, RefV):
+        tgt = I.load(v)
+        if isinstance(tgt, Agg) and tgt.kind == 'array' and v.win is None:
+            return Agg('iter', 0, [[RefV(v.cell, v.path + (i,)) for i in range(len(tgt.fields))], 0])
+        cell, path, s, n = _slice(I, v)
+        return Agg('iter', 0, [[RefV(cell, path + (s + i,)) for i in range(n)], 0])
+    raise Unsupported('par_iter_mut of %r' % (v,))
+
+
+@model('rayon::iter::IndexedParallelIterator::enumerate')
+def m_par_enumerate(I, a, t, c):
+    return m_enumerate(I, a, t, c)
+
+
+@model('rayon::iter::ParallelIterator::for_each')
+def m_par_for_each(I, a, t, c):
+    return m_for_each(I, a, t, c)
+
+
+@model('rayon::iter::ParallelIterator::map')
+def m_par_map(I, a, t, c):
+    return m_map(I, a, t, c)
+
+
+@model('rayon::iter::IndexedParallelIterator::zip')
+def m_par_zip(I, a, t, c):
+    return m_zip(I, a, t, c)
+
+
+def _chunks(I, a, exact):
+    v = a[0]
+    n = I.conc(a[1])
+    if n == 0:
+        raise Panic('chunk-size-zero', 'chunk size must be non-zero', None)
+    if isinstance(v, RefV):
+        tgt = I.load(v)
+        if isinstance(tgt, Agg) and tgt.kind == 'array' and v.win is None:
+            cell, path, s, L = v.cell, v.path, 0, len(tgt.fields)
+        else:
+            cell, path, s, L = _slice(I, v)
+    else:
+        raise Unsupported('chunks of %r' % (v,))
+    out = []
+    i = 0
+    while i < L:
+        m = min(n, L - i)
+        if m < n and exact:
+            break
+        out.append(RefV(cell, path, (s + i, m)))
+        i += m
+    return Agg('iter', 0, [out, 0])
+
+
+@model('rayon::slice::ParallelSliceMut::par_chunks_mut', 'rayon::slice::ParallelSlice::par_chunks', 'rayon::prelude::ParallelSliceMut::par_chunks_mut', 'rayon::prelude::ParallelSlice::par_chunks',
+       'core::slice::<impl [T]>::chunks', 'core::slice::<impl [T]>::chunks_mut')
+def m_par_chunks_mut(I, a, t, c):
+    return _chunks(I, a, False)
+
+
+@model('rayon::slice::ParallelSliceMut::par_chunks_exact_mut', 'rayon::slice::ParallelSlice::par_chunks_exact', 'rayon::prelude::ParallelSliceMut::par_chunks_exact_mut', 'rayon::prelude::ParallelSlice::par_chunks_exact',
+       'core::slice::<impl [T]>::chunks_exact', 'core::slice::<impl [T]>::chunks_exact_mut')
+def m_par_chunks_exact_mut(I, a, t, c):
+    return _chunks(I, a, True)
+
+
+# ---- ndarray s![..] slicing (2-D source): [.., j] column view, [i, ..] row view, [.., ..] whole
+@model('ndarray::SliceNextDim::next_in_dim', 'ndarray::SliceNextDim::next_out_dim')
+def m_nd_next_dim(I, a, t, c):
+    return Opaque('PhantomDim')
+
+
+@model('<ndarray::SliceInfoElem as std::convert::From<std::ops::RangeFull>>::from')
+def m_nd_sie_full(I, a, t, c):
+    return Agg('sliceelem', 0, ['full'])
+
+
+@model('<ndarray::SliceInfoElem as std::convert::From<usize>>::from', '<ndarray::SliceInfoElem as std::convert::From<isize>>::from')
+def m_nd_sie_index(I, a, t, c):
+    return Agg('sliceelem', 1, [I.conc(a[0])])
+
+
+@model('<ndarray::SliceInfoElem as std::convert::From<std::ops::Range<usize>>>::from')
+def m_nd_sie_range(I, a, t, c):
+    r = a[0]
+    return Agg('sliceelem', 2, [I.conc(r.fields[0]), I.conc(r.fields[1])])
+
+
+@model('ndarray::SliceInfo::new_unchecked')
+def m_nd_sliceinfo(I, a, t, c):
+    return Agg('sliceinfo', 0, list(a[0].fields))
+
+
+@model('ndarray::impl_methods::<impl ndarray::ArrayBase<S, D>>::slice')
+def m_nd_slice(I, a, t, c):
+    n = _nd(I, a[0])
+    info = deref_all(I, a[1])
+    if not (isinstance(info, Agg) and info.kind == 'sliceinfo' and len(info.fields) == 2):
+        raise Unsupported('slice with %r' % (info,))
+    r, cc = info.fields
+
+    def span(e, size):
+        if e.variant == 0:
+            return 0, size
+        lo, hi = e.fields
+        if lo > hi or hi > size:
+            raise Panic('ndarray-slice', 'range %d..%d out of %d' % (lo, hi, size), t.span)
+        return lo, hi
+    if r.variant in (0, 2) and cc.variant in (0, 2) and (r.variant == 2 or cc.variant == 2):
+        r0, r1 = span(r, len(n.rows))
+        c0, c1 = span(cc, n.ncols)
+        return Nd2([row[c0:c1] for row in n.rows[r0:r1]], c1 - c0)
+    if r.variant == 0 and cc.variant == 1:
+        j = cc.fields[0]
+        if j >= n.ncols:
+            raise Panic('ndarray-slice', 'column %d out of %d' % (j, n.ncols), t.span)
+        return _view1([row[j] for row in n.rows])
+    if r.variant == 1 and cc.variant == 0:
+        i = r.fields[0]
+        if i >= len(n.rows):
+            raise Panic('ndarray-slice', 'row %d out of %d' % (i, len(n.rows)), t.span)
+        return _view1(n.rows[i])
+    if r.variant == 0 and cc.variant == 0:
+        return Nd2(n.rows, n.ncols)
+    raise Unsupported('slice pattern %r' % (info,))
+
+
+@model('rayon::join', 'rayon_core::join', 'rayon_core::join::join')
+def m_rayon_join(I, a, t, c):
+    ra = I.call_closure(a[0], [])
+    rb = I.call_closure(a[1], [])
+    return Agg('tuple', 0, [ra, rb])
+
+
+@model('core::slice::<impl [T]>::split_at')
+def m_split_at(I, a, t, c):
+    cell, path, s, n = _slice(I, a[0])
+    m = I.conc(a[1])
+    if m > n:
+        raise Panic('split_at', 'mid %d > len %d' % (m, n), t.span)
+    return Agg('tuple', 0, [RefV(cell, path, (s, m)), RefV(cell, path, (s + m, n - m))])
+
+
+@model('core::slice::<impl [T]>::split_at_mut')
+def m_split_at_mut(I, a, t, c):
+    return m_split_at(I, a, t, c)
+
+
+@model('<hashbrown::HashMap<K, V, S, A> as std::ops::Index<&Q>>::index', '<std::collections::HashMap<K, V, S> as std::ops::Index<&Q>>::index')
+def m_map_index(I, a, t, c):
+    m = deref_all(I, a[0])
+    k = _mkey(deref_all(I, a[1]))
+    if k not in m.d:
+        raise Panic('hashmap-index', 'key not found', t.span)
+    return RefV(m.d[k][1])
+
+
+# ====================================================================== needletail over a virtual file table
+# A rule installs  I.files = {path: ('fasta'|'fastq', [(id, seq, qual|None), ...])}.  parse_fastx_file(path) yields the
+# records in order; nothing touches the disk.  The parser itself (line wrapping, gzip) stays trusted.
+def _strval(I, v):
+    while isinstance(v, RefV):
+        v = I.load(v)
+    if isinstance(v, StrV):
+        return ''.join(c if isinstance(c, str) else chr(c.val) for c in v.chars)
+    raise Unsupported('not a string: %r' % (v,))
+
+
+def m_parse_fastx_file(I, a, t, c):
+    path = _strval(I, a[0])
+    files = getattr(I, 'files', None)
+    if files is None:
+        raise Unsupported('parse_fastx_file(%r) without a virtual file table' % path)
+    if path not in files:
+        return Agg('adt:std::result::Result', 1, [Opaque(('ParseError', path))])
+    fmt, recs = files[path]
+    items = []
+    for (rid, seq, qual) in recs:
+        rec = Agg('seqrec', 0, [Cell(Agg('array', 0, [BV(8, ord(ch)) for ch in rid]), 'id'),
+                                Cell(Agg('array', 0, [BV(8, ord(ch)) for ch in seq]), 'seq'),
+                                Cell(Agg('array', 0, [BV(8, q) for q in qual]), 'qual') if qual is not None else None,
+                                1 if fmt == 'fastq' else 0])
+        items.append(_ok(rec))
+    I.trace.append(('open', path))
+    # Box<dyn FastxReader>: Box { 0: Unique { pointer: NonNull(ptr) } } - MIR reads `box.0.0` and transmutes it to *const dyn
+    return _ok(Agg('box', 0, [Agg('unique', 0, [RefV(Cell(Agg('iter', 0, [items, 0]), 'fastx-reader'))])]))
+
+
+SUFFIX_MODELS['needletail::parse_fastx_file'] = m_parse_fastx_file
+
+
+def _rec(I, v):
+    while isinstance(v, RefV):
+        v = I.load(v)
+    if isinstance(v, Agg) and v.kind == 'seqrec':
+        return v
+    raise Unsupported('not a sequence record: %r' % (v,))
+
+
+def m_seqrec_seq(I, a, t, c):
+    r = _rec(I, a[0])
+    n = len(r.fields[1].v.fields)
+    return Agg('cow', 0, [RefV(r.fields[1], (), (0, n))])
+
+
+def m_seqrec_num_bases(I, a, t, c):
+    return BV(64, len(_rec(I, a[0]).fields[1].v.fields))
+
+
+def m_seqrec_qual(I, a, t, c):
+    r = _rec(I, a[0])
+    if r.fields[2] is None:
+        return NONE
+    return some(RefV(r.fields[2], (), (0, len(r.fields[2].v.fields))))
+
+
+def m_seqrec_id(I, a, t, c):
+    r = _rec(I, a[0])
+    return RefV(r.fields[0], (), (0, len(r.fields[0].v.fields)))
+
+
+def m_seqrec_format(I, a, t, c):
+    paths = [p for p in I.facts.adts if p.endswith('needletail::parser::Format')]
+    kind = 'adt:' + (paths[0] if paths else 'needletail::parser::Format')      # same representation as the crate's constants
+    return Agg(kind, _rec(I, a[0]).fields[3], [])
+
+
+SUFFIX_MODELS['needletail::parser::SequenceRecord::seq'] = m_seqrec_seq
+SUFFIX_MODELS['needletail::parser::SequenceRecord::raw_seq'] = m_seqrec_seq
+SUFFIX_MODELS['needletail::parser::SequenceRecord::num_bases'] = m_seqrec_num_bases
+SUFFIX_MODELS['needletail::parser::SequenceRecord::qual'] = m_seqrec_qual
+SUFFIX_MODELS['needletail::parser::SequenceRecord::id'] = m_seqrec_id
+SUFFIX_MODELS['needletail::parser::SequenceRecord::format'] = m_seqrec_format
+
+
+def m_format_eq(I, a, t, c):
+    def idx(v):
+        v = deref_all(I, v)
+        if isinstance(v, Agg):
+            return v.variant
+        return I.conc(v)
+    return bv_bool(idx(a[0]) == idx(a[1]))
+
+
+SUFFIX_MODELS['needletail::parser::Format as std::cmp::PartialEq>::eq'] = m_format_eq
+
+
+@model('std::result::Result::unwrap_or_else')
+def m_res_unwrap_or_else(I, a, t, c):
+    r = a[0]
+    if r.variant == 0:
+        return r.fields[0]
+    return I.call_closure(a[1], [r.fields[0]])
+
+
+@model('std::f64::<impl f64>::round')
+def m_f64_round(I, a, t, c):
+    import math
+    x = a[0]
+    return float(math.floor(abs(x) + 0.5)) * (1 if x >= 0 else -1)
+
+
+def m_format_ne(I, a, t, c):
+    return bv_bool(not I.conc(m_format_eq(I, a, t, c)))
+
+
+SUFFIX_MODELS['needletail::parser::Format as std::cmp::PartialEq>::ne'] = m_format_ne
+
+
+# ---- str helpers used on record ids
+@model('std::str::from_utf8', 'core::str::from_utf8')
+def m_from_utf8(I, a, t, c):
+    vals = _vals(I, a[0])
+    return _ok(RefV(Cell(StrV([chr(I.conc(x)) for x in vals]), 'utf8')))
+
+
+@model('core::str::<impl str>::split_whitespace')
+def m_split_whitespace(I, a, t, c):
+    s = _strval(I, a[0])
+    return Agg('iter', 0, [[RefV(Cell(StrV(list(w)), 'word')) for w in s.split()], 0])
+
+
+@model('core::str::<impl str>::to_string', 'alloc::string::ToString::to_string', '<str as std::string::ToString>::to_string')
+def m_str_to_string(I, a, t, c):
+    return StrV(list(_strval(I, a[0])))
+
+
+@model('<std::borrow::Cow<B> as std::ops::Deref>::deref')
+def m_cow_deref2(I, a, t, c):
+    v = deref_all(I, a[0]) if not (isinstance(a[0], Agg) and a[0].kind == 'cow') else a[0]
+    if isinstance(v, Agg) and v.kind == 'cow':
+        return v.fields[0]
+    raise Unsupported('Cow deref of %r' % (v,))
+
+
+# ---- hashbrown::HashSet::entry (Occupied = 0 / Vacant = 1) with VacantEntry::insert
+@model('hashbrown::HashSet::entry')
+def m_set_entry(I, a, t, c):
+    s = I.load(a[0])
+    k = _skey(a[1])
+    payload = Agg('setentry', 0, [a[0], a[1]])
+    return Agg('adt:hashbrown::hash_set::Entry', 0 if k in s.d else 1, [payload])
+
+
+@model('hashbrown::hash_set::VacantEntry::insert')
+def m_set_vacant_insert(I, a, t, c):
+    e = a[0]
+    setref, key = e.fields
+    s = I.load(setref)
+    s.d[_skey(key)] = key
+    return UNIT
+
+
+@model('hashbrown::hash_set::Entry::insert', 'hashbrown::hash_set::Entry::or_insert')
+def m_set_entry_insert(I, a, t, c):
+    e = a[0]
+    if e.variant == 1:
+        m_set_vacant_insert(I, [e.fields[0]], t, c)
+    return UNIT
+
+
+@model('indicatif::ProgressIterator::progress', 'indicatif::ProgressIterator::progress_count', 'indicatif::ParallelProgressIterator::progress_count',
+       'indicatif::ParallelProgressIterator::progress')
+def m_progress(I, a, t, c):
+    return a[0]
+
+
+@model('std::f64::<impl f64>::log2')
+def m_f64_log2(I, a, t, c):
+    import math
+    x = a[0]
+    if x <= 0:
+        return float('-inf') if x == 0 else float('nan')
+    return math.log2(x)
+
+
+@model('std::f64::<impl f64>::floor')
+def m_f64_floor(I, a, t, c):
+    import math
+    return float(math.floor(a[0]))
+
+
+@model('std::f64::<impl f64>::ceil')
+def m_f64_ceil(I, a, t, c):
+    import math
+    return float(math.ceil(a[0]))
+
+
+# ---- the `?` operator on Result / Option: ControlFlow::Continue(v) = variant 0, Break(residual) = variant 1
+@model('<std::result::Result<T, E> as std::ops::Try>::branch')
+def m_result_branch(I, a, t, c):
+    r = a[0]
+    if r.variant == 0:
+        return Agg('adt:std::ops::ControlFlow', 0, [r.fields[0]])
+    return Agg('adt:std::ops::ControlFlow', 1, [Agg('adt:std::result::Result', 1, [r.fields[0]])])
+
+
+@model('<std::option::Option<T> as std::ops::Try>::branch')
+def m_option_branch(I, a, t, c):
+    o = a[0]
+    if o.variant == 1:
+        return Agg('adt:std::ops::ControlFlow', 0, [o.fields[0]])
+    return Agg('adt:std::ops::ControlFlow', 1, [NONE])
+
+
+@model('<std::result::Result<T, F> as std::ops::FromResidual<std::result::Result<std::convert::Infallible, E>>>::from_residual')
+def m_result_from_residual(I, a, t, c):
+    return Agg('adt:std::result::Result', 1, [a[0].fields[0]])
+
+
+@model('rayon::iter::IntoParallelIterator::into_par_iter', '<I as rayon::iter::IntoParallelIterator>::into_par_iter')
+def m_into_par_iter(I, a, t, c):
+    return m_into_iter(I, a, t, c)
+
+
+@model('rayon::iter::IndexedParallelIterator::collect_into_vec')
+def m_collect_into_vec(I, a, t, c):
+    I.store(a[1], Agg('array', 0, _iter_items(I, a[0])))
+    return UNIT
+
+
+@model('rayon::iter::ParallelIterator::collect')
+def m_par_collect(I, a, t, c):
+    return m_collect(I, a, t, c)
